@@ -52,6 +52,12 @@ class Ent(Obj):
     against other concrete values are decided by identity instead of becoming symbolic comparisons."""
 
 
+class Atom(Obj):
+    """Abstract record with identity semantics: two Atoms are equal iff they are the same record, so equality and
+    membership tests on them are decided instead of becoming symbolic conditions (e.g. the distinct indices of a
+    concrete scenario)."""
+
+
 class Func:
     def __init__(self, node, frames, module, qual=None, bound=None):
         self.node, self.frames, self.module, self.qual, self.bound = node, frames, module, qual, bound
@@ -713,6 +719,8 @@ class Symex:
             r = self.contains(b, a, node)
             if isinstance(r, bool):
                 return r if opname == "in" else not r
+        if isinstance(a, Atom) and opname in ("in", "not in") and isinstance(b, (list, tuple, set, frozenset, dict)):
+            return any(e is a for e in b) == (opname == "in")
         if isinstance(a, Ext):
             a = sym(a.name)
         if isinstance(b, Ext):
@@ -761,8 +769,8 @@ class Symex:
             self.unsupported(node, "comparison of unsupported values")
 
     def contains(self, coll, x, node):
-        if isinstance(x, Ent) and isinstance(coll, (list, tuple, set, frozenset, dict)) \
-                and not any(isinstance(e, T) for e in coll):
+        if isinstance(coll, (list, tuple, set, frozenset, dict)) and (
+                isinstance(x, Atom) or isinstance(x, Ent) and not any(isinstance(e, T) for e in coll)):
             return any(e is x for e in coll)
         if isinstance(coll, Obj):
             coll = coll.term
@@ -893,6 +901,9 @@ class Symex:
             self.unsupported(n, "starred outside call")
         if isinstance(n, ast.Yield):
             self.frames[-1].setdefault("$yield", []).append(self.ev(n.value) if n.value is not None else None)
+            return None
+        if isinstance(n, ast.YieldFrom):
+            self.frames[-1].setdefault("$yield", []).extend(self.iterate(self.ev(n.value), n))
             return None
         if isinstance(n, ast.Slice):
             return slice(self.ev(n.lower) if n.lower else None, self.ev(n.upper) if n.upper else None,
@@ -1530,6 +1541,8 @@ class Symex:
                     return getattr(o, attr)(*a)
                 except (IndexError, ValueError):
                     raise Raised("IndexError" if attr == "pop" else "ValueError", None, node)
+                except TypeError:
+                    raise Raised("TypeError", None, node)
         if isinstance(o, tuple):
             if attr == "count":
                 return sum(1 for y in o if _eq(y, a[0]))
